@@ -100,4 +100,10 @@ META = {
         "note": "Partial: torn or interleaved lines cannot be exhibited by the model (one append per event); kernel O_APPEND atomicity and json.Encoder issuing one Write per Encode are observed, not proved.",
         "technique": "Coq proof (induction over runs using the tracker invariant) + concurrent differential execution with a recording writer under -race",
     },
+    "C14": {
+        "text": "Coq theorems C14_render (for every login identity and coalesced audit event: type UserAction, component auditd, timestamp, auditId = session, outcome succeeded iff result is exactly 'success', action/how/object, process_args present iff the event has arguments and then equal, identity = the login's), C14_same_identity (under the C02 discipline all rendered events of a session carry one login's identity; built on once_in_order) and C14_non_mutation (no audit step changes a stored login). Correspondence: generated record groups go through the real auparse -> Reassembler -> reassemblerCB -> correlator, the written UserAction is compared with the model applied to the library's coalesced event; the Go oracle checks the property text directly, including deep-copy non-mutation of the stored login over >= 20 events.",
+        "design_ref": "DESIGN.md 6/C14",
+        "note": "Partial: how aucoalesce derives result/summary from raw records is third-party behaviour used as oracle (e.g. ENRICHED-format LOGIN records are read as result 'fail' by the pinned library: recorded as an observation, replay findings/C14_enriched_login_replay.json).",
+        "technique": "Coq proof (pure rendering function + tracker refinement) + correspondence through the real parser/reassembler",
+    },
 }
